@@ -45,6 +45,9 @@ def main():
     import cProfile  # noqa: F401
     import pstats  # noqa: F401
     import trace as _trace  # noqa: F401
+    if case.get("pre_gc_debug"):
+        # interpreter-global state that is already set when the run starts (an embedding harness, an outer run)
+        gc.set_debug(case["pre_gc_debug"])
     if case.get("pre_trace"):
         def tracer(frame, event, arg):
             return None
@@ -61,6 +64,7 @@ def main():
         exc = type(e).__name__
         failed = None
     after = snapshot(names)
+    gc.set_debug(0)
     sys.settrace(None)
     sys.stdout = real_out
     json.dump({"before": before, "after": after, "exc": exc, "failed": failed}, sys.stdout)
